@@ -132,12 +132,14 @@ class OfxgetWorld:
         self.fidb = {}
         self.user_model = {}            # what the user section should currently yield
         self.default_clientuid = None
+        self.user_default = {}          # non-clientuid options in the user's [DEFAULT] section
         self.home_down = False
         self.fault_next = None
         self.acct_spec = []
         self.acct_error = None
         self.stmt_error = 0
         self.source_stats = {}
+        self.unspecified = set()
 
     def violate(self, prop, inv, sub, message, **facts):
         key = f"{prop}/{inv}/{sub}"
@@ -164,6 +166,8 @@ class OfxgetWorld:
                 out.append("".join(ACCT_ALPHA[ch.pick(label + ".ch", len(ACCT_ALPHA))] for _ in range(ln)))
             return out
         pool = POOL[opt]
+        if opt == "clientuid" and label == "cli" and self.default_clientuid and ch.flag("cli.clientuid.is_default", 0.35):
+            return self.default_clientuid          # exactly the generated default, given explicitly
         return pool[ch.pick(label + "." + opt, len(pool))]
 
     def setup(self):
@@ -217,9 +221,18 @@ class OfxgetWorld:
                     if opt == "url" and "%" in sec[opt]:
                         sec[opt] = URLS[3]
             txt = []
+            dflt = []
             if ch.flag("user.default_clientuid", 0.5):
                 self.default_clientuid = "0DEFA017-0000-4000-8000-00000000C11D"
-                txt += ["[DEFAULT]", f"clientuid = {self.default_clientuid}", ""]
+                dflt.append(f"clientuid = {self.default_clientuid}")
+            # other options kept under [DEFAULT]: their precedence is not stated by the property, so effective
+            # values they could decide are not judged (L1), but saving and re-reading (L2) is
+            for opt in ("appver", "appid", "language", "org", "user"):
+                if ch.flag("user.default." + opt, 0.12):
+                    self.user_default[opt] = self.draw_value(opt, "userdefault")
+                    dflt.append(f"{opt} = {cfg_text(self.user_default[opt])}")
+            if dflt:
+                txt += ["[DEFAULT]"] + dflt + [""]
             txt.append(f"[{NICK}]")
             for k, v in sec.items():
                 txt.append(f"{k} = {cfg_text(v)}")
@@ -260,6 +273,11 @@ class OfxgetWorld:
                     break
         if "clientuid" not in out and self.default_clientuid:
             out["clientuid"], src["clientuid"] = self.default_clientuid, "user-default"
+        unspecified = [opt for opt in self.user_default if src.get(opt) not in ("cli", "user")]
+        for opt in unspecified:
+            # configparser semantics (what the program does today): section values of either file first
+            if opt not in out:
+                out[opt], src[opt] = self.user_default[opt], "user-default"
         hid = out.get("ofxhome")
         looked = None
         if hid and not self.home_down:
@@ -271,6 +289,7 @@ class OfxgetWorld:
         for opt in PERSISTABLE:
             if opt not in out:
                 out[opt], src[opt] = DEFAULTS[opt], "default"
+        self.unspecified = set(unspecified)
         return out, src
 
     # -- one simulated process run ---------------------------------------------------------------------
@@ -351,6 +370,8 @@ class OfxgetWorld:
             for opt in PERSISTABLE:
                 if opt not in run.effective:
                     continue
+                if opt in self.unspecified:
+                    continue            # decided by the user's [DEFAULT] section: rank not stated by the property
                 got = run.effective[opt]
                 want = expect[opt]
                 self.source_stats[src[opt]] = self.source_stats.get(src[opt], 0) + 1
@@ -459,19 +480,23 @@ class OfxgetWorld:
                 self.violate("C18", "L1w-wire", "useragent", f"{where}: User-Agent {ua!r}, effective setting {expect['useragent']!r}")
             org = son.get("FI/ORG")
             fid = son.get("FI/FID")
-            if not same(org, expect["org"]):
+            if "org" in self.unspecified:
+                pass
+            elif not same(org, expect["org"]):
                 self.violate("C18", "L1w-wire", "org", f"{where}: FI.ORG {org!r}, effective setting {expect['org']!r}")
             if not null(expect["org"]) and not same(fid, expect["fid"]):
                 self.violate("C18", "L1w-wire", "fid", f"{where}: FI.FID {fid!r}, effective setting {expect['fid']!r}")
             for tag, opt, dflt in (("APPID", "appid", "QWIN"), ("APPVER", "appver", "2700"), ("LANGUAGE", "language", "ENG")):
                 want = expect[opt] if not null(expect[opt]) else dflt
+                if opt in self.unspecified:
+                    continue
                 if son.get(tag) != want:
                     self.violate("C18", "L1w-wire", opt, f"{where}: {tag} {son.get(tag)!r}, effective setting {want!r}")
             cu = son.get("CLIENTUID")
             if expect["version"] >= 103 and not same(cu, expect["clientuid"]):
                 self.violate("C18", "L1w-wire", "clientuid", f"{where}: CLIENTUID {cu!r}, effective setting {expect['clientuid']!r}")
             if not is_prof:
-                if not null(expect["user"]) and s.userid != expect["user"]:
+                if "user" not in self.unspecified and not null(expect["user"]) and s.userid != expect["user"]:
                     self.violate("C18", "L1w-wire", "user", f"{where}: USERID {s.userid!r}, effective setting {expect['user']!r}")
             if is_prof and expect["skipprofile"] and run.cmd != "prof":
                 self.violate("C18", "L1w-wire", "skipprofile", f"{where}: profile request sent although skipprofile is in effect")
@@ -569,7 +594,7 @@ class OfxgetWorld:
             active = {}
             bankid = brokerid = None
             for a in self.acct_spec:
-                if a["status"] != "ACTIVE":
+                if a["status"] != "ACTIVE" or a["kind"] == "bp":
                     continue
                 if a["kind"] == "bank":
                     active.setdefault(a["accttype"].lower(), []).append(a["acctid"])
@@ -625,7 +650,7 @@ class OfxgetWorld:
         if run.all:
             self.sim.count("probe.all_runs_judged")
             # M3: nothing that is not ACTIVE
-            inactive = {(a["kind"], a["acctid"]) for a in self.acct_spec if a["status"] != "ACTIVE"}
+            inactive = {(a["kind"], a["acctid"]) for a in self.acct_spec if a["status"] != "ACTIVE" and a["kind"] != "bp"}
             for g in got:
                 kind = {"STMT": "bank", "STMTEND": "bank", "CCSTMT": "cc", "CCSTMTEND": "cc", "INVSTMT": "inv"}.get(g[0])
                 acct = g[2] if kind == "bank" else g[1]
@@ -681,7 +706,9 @@ def fmt(items):
 # driver
 # ---------------------------------------------------------------------------------------------------
 DATES = ["20200101", "20191231235959", "20200315120000.000[-5:EST]", "20210704080000[+2:EET]", "20180228",
-         "20200229", "19991231235959.999", "20200315120000[0:GMT]", "20201101013000.000[-8:PST]", "20240630"]
+         "20200229", "19991231235959.999", "20200315120000[0:GMT]", "20201101013000.000[-8:PST]", "20240630",
+         "20240101000000.000[-3.30:NST]", "20240131120000[+5.30:IST]", "20230615083000.000[-9.30:MART]",
+         "20220301000000[+12.45]"]
 
 
 def draw_accounts(world):
@@ -691,7 +718,7 @@ def draw_accounts(world):
     brokerid = POOL["brokerid"][ch.pick("acct.brokerid", 2)]
     n = ch.geometric("acct.n", 3, 14)
     for i in range(n):
-        kind = ["bank", "cc", "inv"][ch.pick("acct.kind", 3)]
+        kind = ["bank", "cc", "inv", "bp"][ch.weighted("acct.kind", [4, 4, 4, 1])]
         status = ["ACTIVE", "PEND", "AVAIL"][ch.weighted("acct.status", [3, 1, 1])]
         ln = 1 + ch.geometric("acct.idlen", 4, 19)
         acctid = "".join(ACCT_ALPHA[ch.pick("acct.ch", len(ACCT_ALPHA))] for _ in range(ln)) + str(i)
@@ -699,7 +726,7 @@ def draw_accounts(world):
             acctid = spec[ch.pick("acct.shared_of", len(spec))]["acctid"]     # same number under another type/class
         a = {"kind": kind, "acctid": acctid, "status": status}
         a["group"] = bool(spec) and ch.flag("acct.same_aggregate", 0.25)      # share the previous ACCTINFO aggregate
-        if kind == "bank":
+        if kind in ("bank", "bp"):
             a["bankid"] = bankid
             a["accttype"] = (BANKTYPES + ["CD"])[ch.weighted("acct.type", [3, 3, 2, 2, 1])]
         elif kind == "inv":
